@@ -57,6 +57,7 @@ def Pc.rank : Pc → Nat
   | .wSleep _ => 5
   | .wHold _ _ => 4
   | .wTimedOut _ => 4
+  | .wLate _ => 4
   | .wUnlock _ _ => 3
   | .wRet _ _ => 2
   | .rCalled => 4
